@@ -150,6 +150,31 @@ theorem filter_padded (ws : List Flt) (pts : List (Flt × Flt)) (a b : Nat)
     rw [this, rowIsPad_pad]; simp
   rw [h1, h2, List.append_nil]
 
+theorem cal_roundtrip_aux (c : Cal) (size : Nat) (hok : c.ok = true) (_hsize : c.points.length ≤ size) :
+    Cal.fromArray (c.toArray size) = c := by
+  simp only [Cal.ok, Bool.and_eq_true, decide_eq_true_eq, Bool.not_eq_true'] at hok
+  obtain ⟨⟨⟨⟨⟨⟨⟨hul, hun⟩, hwl⟩, hwn⟩, hrsq⟩, herr⟩, hrows⟩, hw⟩ := hok
+  have hlen : c.effWeights.length = c.points.length := by
+    unfold Cal.effWeights
+    split
+    · split <;> simp [derivedWeights_length]
+    · rename_i hk
+      simpa [hk] using hw
+  have hrows' := filter_padded c.effWeights c.points (size - c.effWeights.length) (size - c.points.length) hlen hrows
+  unfold Cal.fromArray Cal.toArray
+  simp only [hrows', npStr_id 32 c.unit hul hun, npStr_id 32 c.weighting hwl hwn,
+    optOfNaN_getD _ hrsq, optOfNaN_getD _ herr]
+  rw [List.map_snd_zip (by omega), List.map_fst_zip (by omega)]
+  cases c with
+  | mk i g u r e p wn ws =>
+    simp only [Cal.mk.injEq, true_and]
+    split
+    · rename_i hk
+      simp only [hk, if_true, beq_iff_eq] at hw
+      exact hw.symm
+    · rename_i hk
+      simp [Cal.effWeights, hk]
+
 /-! ## dicts -/
 
 theorem keys_cons {β} (kv : Str × β) (d : List (Str × β)) : keys (kv :: d) = kv.1 :: keys d := rfl
@@ -853,5 +878,68 @@ theorem good_next (p : PathInfo) (ver : Str) (X : Info) (g : Good p ver X) : Goo
     · exact (List.all_eq_true.mp g.nonul) kv (hsub kv h)
     · simp only [List.mem_singleton] at h
       simp [h]
+
+/-! ## old layouts -/
+
+theorem dictGet_map_of_mem (g : Cal → CalArr) (d : List (Str × Cal)) (hn : (keys d).Nodup) (k : Str) (c : Cal)
+    (hm : (k, c) ∈ d) : dictGet (d.map fun kc => (kc.1, g kc.2)) k = some (g c) := by
+  induction d with
+  | nil => simp at hm
+  | cons kv r ih =>
+    obtain ⟨k0, c0⟩ := kv
+    simp only [keys, List.map_cons, List.nodup_cons] at hn
+    simp only [List.map_cons, dictGet]
+    simp only [List.mem_cons, Prod.mk.injEq] at hm
+    rcases hm with ⟨rfl, rfl⟩ | hm
+    · simp
+    · have hne : ¬ k0 = k := by
+        intro e; subst e
+        exact hn.1 (List.mem_map_of_mem (f := (·.1)) hm)
+      rw [if_neg hne]
+      exact ih hn.2 hm
+
+/-- the per-element calibration members of a 0.6 / 0.7 file load back to the calibration dict -/
+theorem foldlM_calibrationOf (cal : List (Str × Cal)) (hn : (keys cal).Nodup) (hc : ∀ kc ∈ cal, kc.2.ok = true)
+    (pre suf : List (Str × Cal)) (fs : List (Str × Str)) (hcal : cal = pre ++ suf) (hk : keys fs = keys suf) :
+    fs.foldlM (fun (d : List (Str × Cal)) nf => do
+        let a ← getOr Err.keyError (dictGet (cal.map fun kc => (kc.1, kc.2.toArray kc.2.points.length)) nf.1)
+        pure (dictInsert d nf.1 (Cal.fromArray a))) pre = Except.ok cal := by
+  induction suf generalizing pre fs with
+  | nil =>
+    have : fs = [] := by simpa [keys] using hk
+    subst this
+    simp [hcal]; rfl
+  | cons kc suf' ih =>
+    obtain ⟨k, c⟩ := kc
+    cases fs with
+    | nil => simp [keys] at hk
+    | cons nf fs' =>
+      simp only [keys, List.map_cons, List.cons.injEq] at hk
+      obtain ⟨hk1, hk2⟩ := hk
+      have hmem : (k, c) ∈ cal := by rw [hcal]; simp
+      have hget := dictGet_map_of_mem (fun c => c.toArray c.points.length) cal hn k c hmem
+      have hnot : k ∉ keys pre := by
+        rw [hcal] at hn
+        simp only [keys, List.map_append, List.map_cons] at hn
+        have := (List.nodup_append.mp hn).2.2
+        intro hm
+        exact this _ hm _ (by simp) rfl
+      simp only [List.foldlM_cons, hk1, hget, getOr, bind, Except.bind, pure, Except.pure]
+      rw [cal_roundtrip_aux c c.points.length (hc _ hmem) (Nat.le_refl _), dictInsert_of_not_mem pre k c hnot]
+      exact ih (pre ++ [(k, c)]) fs' (by simp [hcal]) (by simpa [keys] using hk2)
+
+theorem cmpGe_cases (va vb : Str) (h : cmpGe va vb = true) : ∃ r, compareVersion va vb = .ok r ∧ r ≠ -1 := by
+  unfold cmpGe at h
+  cases hc : compareVersion va vb with
+  | error e => simp [hc] at h
+  | ok r => exact ⟨r, rfl, by simpa [hc] using h⟩
+
+theorem cmpLt_cases (va vb : Str) (h : cmpLt va vb = true) : compareVersion va vb = .ok (-1) := by
+  unfold cmpLt at h
+  cases hc : compareVersion va vb with
+  | error e => simp [hc] at h
+  | ok r =>
+    have : r = -1 := by simpa [hc] using h
+    rw [this]
 
 end Pew.Npz
